@@ -62,7 +62,22 @@ def build(repo):
     return os.path.join(dst, 'target', 'debug', 'peppi-verif-replay')
 
 
-XX
+def known_ids(prop):
+    """ids of the recorded known findings of `prop` that the native oracles must step over (so that a DIFFERENT violation is still found)"""
+    import json
+    p = os.path.join(VERIF, 'known_findings.json')
+    if not os.path.exists(p):
+        return ''
+    ks = [k.get('native_skip') for k in json.load(open(p)).get('findings', []) if k.get('status') == 'known' and k.get('property') == prop and k.get('native_skip')]
+    return ','.join(sorted(set(ks)))
+
+
+def run_replay(repo, argv, timeout=300, known=''):
+    exe = build(repo)
+    env = dict(os.environ)
+    env['RUST_BACKTRACE'] = '0'
+    if known:
+        env['PEPPI_KNOWN'] = known
     env.setdefault('PEPPI_FIXTURES', os.path.join(repo, 'tests', 'data'))
     p = subprocess.run([exe] + argv, stdout=subprocess.PIPE, stderr=subprocess.STDOUT, text=True, timeout=timeout, env=env)
     return p.returncode, p.stdout
